@@ -10,6 +10,8 @@ from . import lang as L
 
 
 class Outcome:
+    cut = False      # True: the call ended at the end of one arbitrary iteration of a cut loop
+
     def __init__(self, value=None, exc=None):
         self.value, self.exc = value, exc
 
@@ -127,11 +129,18 @@ class SymE:
             return self.I.call_function(f.func, [f.obj] + list(args), kw)
         return self.I.call_value(f, list(args), kw)
 
-    def attempt(self, thunk):
+    def attempt(self, thunk, allow_cut=False):
+        from .engine import LoopCutEnd
         try:
             return Outcome(value=thunk())
         except Raised as r:
             return Outcome(exc=r)
+        except LoopCutEnd:
+            if not allow_cut:
+                raise
+            o = Outcome()
+            o.cut = True
+            return o
 
     def raise_(self, clsname):
         raise Raised(clsname)
@@ -170,6 +179,21 @@ class SymE:
 
     def opaque(self, what, **info):
         return Opaque(what, **info)
+
+    def check_args(self, qual, args, kw):
+        """bind (args, kw) against the real signature of /repo function `qual` (self excluded); raises TypeError as the
+        program would when a call site does not match the signature"""
+        f = self.func(qual)
+        from .interp import Frame
+        self.I.bind_args(f.node.args, [None] + list(args), dict(kw), Frame(f.module, f.cls, None, {}), f.name)
+
+    def stub(self, what, methods=None, attrs=None, awaitable=()):
+        """an external object (socket, transport, deferred...) whose methods are python functions of the unit:
+        methods {name: fn(*args, **kw)}; fn may raise E.Raised(...)"""
+        ms = {}
+        for k, fn in (methods or {}).items():
+            ms[k] = (lambda I, recv, args, kw, fn=fn: fn(*args, **kw))
+        return Opaque(what, methods=ms, attrs_set=dict(attrs or {}), attrs=set((attrs or {}).keys()) | set(ms.keys()))
 
     def fold(self, name, data, init, step, lo=None, hi=None, additive=False):
         """fold of `step` over the byte sequence `data` starting from `init`, as an uninterpreted state function
